@@ -20,7 +20,7 @@ func init() {
 			"R2: a node is handed back to the pool only on an edge where its reference count is tested to be zero (or <=0) and after the unlink routine was applied to it on every path. " +
 			"R3: Add pairs the list append with the index store, Remove pairs the unlink with the index delete. " +
 			"R4: Iterator() increments the reference count of the node it starts from and stores that node in the iterator; Close() calls the release routine exactly once and clears the pointer. " +
-			"R5: in the advance routine every new cursor value gets a reference (+1) on its incoming path and the old cursor loses one (-1) before, also between two consecutive steps. R6: payload is read only from live nodes (from the index, from a skip-removed routine, or tested not to carry the removed mark on every path); R7: cursor routines get only iterator cursors (as argument, or - routines of the iterator itself - from the receiver's cursor); R8: links are written only by the list primitives (node methods, methods of a dedicated list type, the unlink and the append routine); R9: the unlink routine reports nil or its own successor as new head (or, when it re-targets the head itself, writes its own successor and only where the node is known to be the head); R10: release drops its reference before testing the count. The private routines (unlink, append, release, advance) are resolved by what they do (neighbour rewiring, payload fill, reference give-back, loop that moves a reference), wherever they live - also written out in place in the API method. R11: the unlink routine overwrites every payload field of the node (key and value) with its zero value on every path that changes the node. R12: the pointer surgery of the unlink routine: what a neighbour receives is the node's own link of the same name (or nil where the node is known to have no neighbour there), read before the node's own links are cleared; a path that rewires one neighbour rewires the other one too. R13: the key and the value of an Add are stored only into the node the map's tail field designates (read before the field is re-targeted, possibly handed to the append routine at every call) - the end sentinel the iterators at the end are parked on becomes the new entry - never into a node reached through a link or taken from elsewhere. R14: where the unlink routine recognises the head by its nil back link, the head field is assigned only the new head that routine reported, a node allocated in place whose back link is never set, or a node whose back link is cut in the same step. R3 pairs the two steps of Remove per path, in either order (an index delete is matched by an unlink before or behind it). The unlink routine may be split into a function that decides what happens to the node and a private helper of it that does the pointer surgery and whose result the function returns unchanged: the role then goes to the outer function (the one the call sites call), and the verdict is taken on the helper-inlined normal form, where the routine is one body again. R9 reads \"successor\" as the link towards the tail (the link of the filled sentinel into which the append routine hangs the fresh one): the predecessor reported as new head is a violation. R15: the unlink routine cuts links (the node's own and its neighbours') only where the node's reference count is known to be zero - by a test in the routine or at every call of it - so a removed node an iterator is parked on stays linked until the iterator has left it. R16: every decrement of a node's reference count in the package (release, advance, any other function - a census, not a list of methods) is followed on every path to an exit by a call of the unlink routine on that node, or by an edge on which the node is known not to carry the removed mark or its count (read after the decrement) is known not to be zero; no summary kept elsewhere excuses the path. R17: the two sides of the node pool agree on every field of the node other than the payload (R11) and the reference counter (R2): either the function that takes a node from the pool (or the routine it hands the node to) writes the field on every path before it is read, or every pool.Put of the package - a census over all sites - resets it (zero store to the field or to the whole node, a governing test that it is zero, or - for a link - the unlink routine applied before, which clears its own links wherever it rewires a neighbour).",
+			"R5: in the advance routine every new cursor value gets a reference (+1) on its incoming path and the old cursor loses one (-1) before, also between two consecutive steps. R6: payload is read only from live nodes (from the index, from a skip-removed routine, or tested not to carry the removed mark on every path); R7: cursor routines get only iterator cursors (as argument, or - routines of the iterator itself - from the receiver's cursor); R8: links are written only by the list primitives (node methods, methods of a dedicated list type, the unlink and the append routine); R9: the unlink routine reports nil or its own successor as new head (or, when it re-targets the head itself, writes its own successor and only where the node is known to be the head); R10: release drops its reference before testing the count. The private routines (unlink, append, release, advance) are resolved by what they do (neighbour rewiring, payload fill, reference give-back, loop that moves a reference), wherever they live - also written out in place in the API method. R11: the unlink routine overwrites every payload field of the node (key and value) with its zero value on every path that changes the node. R12: the pointer surgery of the unlink routine: what a neighbour receives is the node's own link of the same name (or nil where the node is known to have no neighbour there), read before the node's own links are cleared; a path that rewires one neighbour rewires the other one too. R13: the key and the value of an Add are stored only into the node the map's tail field designates (read before the field is re-targeted, possibly handed to the append routine at every call) - the end sentinel the iterators at the end are parked on becomes the new entry - never into a node reached through a link or taken from elsewhere. R14: where the unlink routine recognises the head by its nil back link, the head field is assigned only the new head that routine reported, a node allocated in place whose back link is never set, or a node whose back link is cut in the same step. R3 pairs the two steps of Remove per path, in either order (an index delete is matched by an unlink before or behind it). The unlink routine may be split into a function that decides what happens to the node and a private helper of it that does the pointer surgery and whose result the function returns unchanged: the role then goes to the outer function (the one the call sites call), and the verdict is taken on the helper-inlined normal form, where the routine is one body again. R9 reads \"successor\" as the link towards the tail (the link of the filled sentinel into which the append routine hangs the fresh one): the predecessor reported as new head is a violation. R15: the unlink routine cuts links (the node's own and its neighbours') only where the node's reference count is known to be zero - by a test in the routine or at every call of it - so a removed node an iterator is parked on stays linked until the iterator has left it. R16: every decrement of a node's reference count in the package (release, advance, any other function - a census, not a list of methods) is followed on every path to an exit by a call of the unlink routine on that node, or by an edge on which the node is known not to carry the removed mark or its count (read after the decrement) is known not to be zero; no summary kept elsewhere excuses the path. R17: the two sides of the node pool agree on every field of the node other than the payload (R11) and the reference counter (R2): either the function that takes a node from the pool (or the routine it hands the node to) writes the field on every path before it is read, or every pool.Put of the package - a census over all sites - resets it (zero store to the field or to the whole node, a governing test that it is zero, or - for a link - the unlink routine applied before, which clears its own links wherever it rewires a neighbour). R2 for an unlink routine that recycles the node itself (it marks a pinned node, or rewires the neighbours, re-targets the head and hands the node to the pool; the callers are one call): at the Put inside the routine \"unlinked before\" means that every path from its entry to the Put has rewired a neighbour of the node (R12 decides both sides), the count test is the same clause as before; every call of the routine is a recycle event of its caller, decided by what holds inside the routine on every path to its Put, plus: the caller does not dereference the node behind the call.",
 		NotDecided: "order and liveness of what an iterator returns over all histories (a value statement).",
 	})
 	register(&Check{
@@ -558,12 +558,16 @@ func mapRules(c *Ctx, pfx string) {
 			c.NoPath(pfx+"2", "pool.Put(node)", call, ir.Query{Fn: fn,
 				Block: func(x ssa.Instruction) bool {
 					cl, ok := x.(*ssa.Call)
-					return ok && ir.StaticCallee(cl) == r.unlink && r.unlinkSubj < len(cl.Call.Args) && same(cl.Call.Args[r.unlinkSubj], arg)
+					if ok && ir.StaticCallee(cl) == r.unlink && r.unlinkSubj < len(cl.Call.Args) && same(cl.Call.Args[r.unlinkSubj], arg) {
+						return true
+					}
+					return r.rewiresNeighbourU(fn, x, arg) // the Put inside the unlink routine itself (v_map_u.go)
 				},
 				Target: func(x ssa.Instruction) bool { return x == ssa.Instruction(call) },
 			}, "the node is recycled without having been unlinked")
 		})
 	}
+	c.recycleThroughUnlinkU(r, pfx+"2") // the calls of an unlink routine that recycles the node itself (v_map_u.go)
 	c.R.Floor(pfx+"2", 3)
 
 	// R3 index and list in pairs
